@@ -204,6 +204,11 @@ def beforeWeight (ctx : List Event) (x : Pub) (A : Bytes) (lrs : List (Bytes × 
 def fullEvents (ctx : List Event) (x : Pub) (A : Bytes) (lrs : List (Bytes × Bytes)) (a1 b : Bytes)
     (r1 s1 : Bytes) (d1 : List Bytes) : List Event := beforeWeight ctx x A lrs a1 b r1 s1 d1
 
+/-- the state the prover leaves in the CALLER's transcript after a successful call: everything up to and including the
+    final challenge (a protocol that goes on using the transcript draws its next challenge from this history) -/
+def proverPost (ctx : List Event) (x : Pub) (A : Bytes) (lrs : List (Bytes × Bytes)) (a1 b : Bytes) : List Event :=
+  beforeFinal ctx x A lrs a1 b ++ [challenge "e" 64]
+
 /-- width in bytes of the digest of a member's final transcript state that is absorbed into the weight transcript
     (`append_u64(b"proof", transcript_rng.next_u64())`, src/range_proof.rs:849-851) -/
 def weightDigestBytes : Nat := 8
